@@ -225,6 +225,12 @@ class InitializingState(TransferState):
         await self.transfer.transition(FailedState(self.transfer))
         return True
 
+    async def incomplete(self) -> bool:
+        # Downloads only: the file connection was lost before the transfer
+        # could start (sending the offset failed)
+        await self.transfer.transition(IncompleteState(self.transfer))
+        return True
+
     async def start_transferring(self) -> bool:
         self.transfer.set_start_time()
         self.transfer.reset_queue_vars()
